@@ -26,6 +26,7 @@ def main(argv):
             return 2
         seed = int(os.environ.get("VERIF_SEED", "0") or 0)
         ctx = core.Ctx(prop, tier, seed)
+        ctx.clean_replays()
         mod = importlib.import_module(prop.lower())
         mod.run(ctx)
         return ctx.finish()
